@@ -99,6 +99,8 @@ pub fn run() -> i32 {
     let mut jobs: Vec<(String, char, bool)> = vec![];
     for i in S_IN { for (oi, o) in S_OUT.iter().enumerate() { for e in &e1 { jobs.push((format!("{} > {}{}", i, o, e), 'S', oi < 2)); } } }
     for i in S_IN { for j in S_IN { for (oi, o) in S_OUT.iter().enumerate() { for (pi, p) in S_OUT.iter().enumerate() { for e in &e_small { jobs.push((format!("{} {} > {} {}{}", i, j, o, p, e), 'S', oi < 2 || pi < 2)); } } } } }
+    // whole syllables rewritten segment for segment by an output structure of the same shape: the syllable count, its stress and its tone stay
+    for (i, o) in [("⟨C V⟩", "⟨t i⟩"), ("⟨C V C⟩", "⟨t i p⟩"), ("⟨V⟩", "⟨i⟩"), ("⟨V C⟩", "⟨i t⟩"), ("⟨C=1 V=2⟩", "⟨1 2⟩"), ("⟨C=1 V=2⟩", "⟨1 i⟩"), ("⟨p a⟩", "⟨t a⟩"), ("⟨C V⟩", "⟨t [+round]⟩")] { for e in &e_small { jobs.push((format!("{} > {}{}", i, o, e), 'S', true)); } }
     for p in P_RULES { for e in &e1 { if p == "* > $" && !e.contains('/') { continue; } jobs.push((format!("{}{}", p, e), 'P', false)); } }
     for p in P_CTX_RULES { jobs.push((p.to_string(), 'P', false)); }
     // ipa flag of a P job: the output holds a literal segment, words with long segments are not claimed
